@@ -167,6 +167,11 @@ func Check(r *ev.Run, replay string) {
 				}
 			}
 			seq = al
+			if sc.NoExplore {
+				r.Eval(len(al))
+				r.Outcome(sc.Name + "|sequential-equals-alone")
+				continue
+			}
 			b := bound
 			if !r.Thorough() && len(seq) > 2 {
 				b = 1 // quick: the three-evaluation scenarios with one preemption (two exceed the execution budget)
